@@ -973,3 +973,56 @@ func (la *LockAn) releasedBetween(key string, a, b ssa.Instruction) bool {
 	}
 	return false
 }
+
+// holdsLockByValue: struct type T has a sync primitive as a direct (non-pointer) field.
+func holdsLockByValue(t types.Type, depth int) string {
+	st, ok := t.Underlying().(*types.Struct)
+	if !ok || depth > 3 {
+		return ""
+	}
+	for i := 0; i < st.NumFields(); i++ {
+		ft := st.Field(i).Type()
+		if n, ok := ft.(*types.Named); ok && n.Obj().Pkg() != nil {
+			pp := n.Obj().Pkg().Path()
+			if (pp == "sync" && (n.Obj().Name() == "Mutex" || n.Obj().Name() == "RWMutex" || n.Obj().Name() == "Once" || n.Obj().Name() == "WaitGroup" || n.Obj().Name() == "Cond")) ||
+				(pp == "sync/atomic" && n.Obj().Name() == "Value") {
+				return st.Field(i).Name()
+			}
+			if _, isS := n.Underlying().(*types.Struct); isS {
+				if s := holdsLockByValue(n, depth+1); s != "" {
+					return st.Field(i).Name() + "." + s
+				}
+			}
+		}
+	}
+	return ""
+}
+
+// ruleNoLockCopy: a method with a value receiver works on a copy of the object
+// and therefore on a copy of its mutex: its critical sections exclude nobody
+// while the maps/slices it guards are still shared by reference.
+func ruleNoLockCopy(c *Ctx, rule string, owners []*types.Named) int {
+	n := 0
+	for _, T := range owners {
+		lf := holdsLockByValue(T, 0)
+		if lf == "" || T.Obj().Pkg() == nil {
+			continue
+		}
+		rel := strings.TrimPrefix(T.Obj().Pkg().Path(), modPath+"/")
+		bad := ""
+		var pos token.Pos = T.Obj().Pos()
+		for _, f := range c.P.PkgFuncs(rel) {
+			recv := f.Signature.Recv()
+			if recv == nil {
+				continue
+			}
+			if rn, ok := recv.Type().(*types.Named); ok && rn == T {
+				bad, pos = fmt.Sprintf("method %s has a value receiver", f.Name()), f.Pos()
+			}
+		}
+		n++
+		c.Check(bad == "", rule, "methods of "+shortPkg(T.Obj().Pkg().Path())+"."+T.Obj().Name()+" do not copy "+lf, pos, "all methods use a pointer receiver",
+			bad+": every call locks a private copy of "+lf+" while the guarded maps are shared — concurrent callers are not excluded (fatal 'concurrent map read and map write')")
+	}
+	return n
+}
